@@ -575,7 +575,7 @@ impl<'a, D: Dialect> RunProgramContext<'a, D> {
                 Some(f) => f,
                 None => break,
             };
-            cost += match op {
+            let op_cost = match op {
                 Operation::Apply => self.apply_op(cost, effective_max_cost - cost)?,
                 Operation::ExitGuard => self.exit_guard(cost)?,
                 Operation::Cons => self.cons_op()?,
@@ -611,6 +611,10 @@ impl<'a, D: Dialect> RunProgramContext<'a, D> {
                     0
                 }
             };
+            // not every operator checks its cost against the remaining budget
+            // (and without a budget the limit is u64::MAX), so the running
+            // total could wrap around
+            cost = cost.checked_add(op_cost).ok_or(EvalErr::CostExceeded)?;
             #[cfg(feature = "verif-hooks")]
             if crate::verif::probe_enabled() {
                 crate::verif::probe(crate::verif::Probe::Step {
